@@ -141,6 +141,107 @@ theorem C16_sorted_slice (g : Graph) (q : SearchQ)
         · simp [Outcome.bind]
         · rw [hfun0 _ rfl rfl rfl, Outcome.bind_ok]
 
+theorem bind_eq_ok {α β : Type} {o : Outcome α} {f : α → Outcome β} {y : β} (h : o.bind f = .ok y) :
+    ∃ x, o = .ok x ∧ f x = .ok y := by
+  cases o <;> simp [Outcome.bind] at h
+  exact ⟨_, rfl, h⟩
+
+theorem slice_zero (ids : List Int) : slice 0 0 ids = ids := by simp [slice]
+
+/-- **The property as stated, for every query shape at once** (breadth/depth first forward and reverse, elements, path;
+with or without `order_by`; any conditions): if the query without limit and offset returns `xs`, the query with
+them returns exactly positions `offset .. offset+limit-1` of `xs` (clipped; `limit = 0` unlimited). -/
+theorem C16_search_slice (g : Graph) (q : SearchQ) (xs : List Int)
+    (h0 : search false g { q with limit := 0, offset := 0 } = .ok xs)
+    (hb : xs.length ≤ U64_MAX) :
+    search false g q = .ok (sliceSpec q.limit q.offset xs) := by
+  have hss : ∀ (q' : SearchQ) ids, sortSlice false g q' ids = .ok (slice q'.limit q'.offset (sortIds g q'.orderBy ids)) := by
+    intro q' ids; simp [sortSlice]
+  have hlen : ∀ ids : List Int, (sortIds g q.orderBy ids).length = ids.length := by
+    intro ids; simp [sortIds, List.length_mergeSort]
+  -- the ordered / path shape: both queries sort the same complete result
+  have ordered : ∀ (o : Outcome (List Int)),
+      o.bind (sortSlice false g { q with limit := 0, offset := 0 }) = .ok xs →
+      o.bind (sortSlice false g q) = .ok (sliceSpec q.limit q.offset xs) := by
+    intro o ho
+    obtain ⟨ids, rfl, hx⟩ := bind_eq_ok ho
+    rw [hss] at hx
+    simp only [slice_zero] at hx
+    injection hx with hx
+    simp only [Outcome.bind, hss]
+    rw [C16_slice_spec _ _ _ (by rw [hx]; exact hb), hx]
+  unfold search at h0 ⊢
+  cases halg : q.alg with
+  | elements =>
+    simp only [halg] at h0 ⊢
+    by_cases ho : q.orderBy.isEmpty
+    · simp only [ho, if_true] at h0 ⊢
+      exact C16_stream_slice_elements g _ _ _ xs h0 (Or.inr hb)
+    · simp only [ho] at h0 ⊢
+      exact ordered _ h0
+  | bfs =>
+    simp only [halg] at h0 ⊢
+    by_cases hd : q.destination = 0
+    · simp only [hd, if_true] at h0 ⊢
+      split at h0
+      · cases h0
+      · rename_i he
+        simp only [he]
+        by_cases ho : q.orderBy.isEmpty
+        · simp only [ho, if_true] at h0 ⊢
+          exact C16_stream_slice g _ _ _ _ _ _ xs h0 (Or.inr hb)
+        · simp only [ho] at h0 ⊢
+          exact ordered _ h0
+    · simp only [hd, if_false] at h0 ⊢
+      by_cases hor : q.origin = 0
+      · simp only [hor, if_true] at h0 ⊢
+        split at h0
+        · cases h0
+        · rename_i he
+          simp only [he]
+          by_cases ho : q.orderBy.isEmpty
+          · simp only [ho, if_true] at h0 ⊢
+            exact C16_stream_slice g _ _ _ _ _ _ xs h0 (Or.inr hb)
+          · simp only [ho] at h0 ⊢
+            exact ordered _ h0
+      · simp only [hor, if_false] at h0 ⊢
+        split at h0
+        · cases h0
+        · rename_i he
+          simp only [he]
+          exact ordered _ h0
+  | dfs =>
+    simp only [halg] at h0 ⊢
+    by_cases hd : q.destination = 0
+    · simp only [hd, if_true] at h0 ⊢
+      split at h0
+      · cases h0
+      · rename_i he
+        simp only [he]
+        by_cases ho : q.orderBy.isEmpty
+        · simp only [ho, if_true] at h0 ⊢
+          exact C16_stream_slice g _ _ _ _ _ _ xs h0 (Or.inr hb)
+        · simp only [ho] at h0 ⊢
+          exact ordered _ h0
+    · simp only [hd, if_false] at h0 ⊢
+      by_cases hor : q.origin = 0
+      · simp only [hor, if_true] at h0 ⊢
+        split at h0
+        · cases h0
+        · rename_i he
+          simp only [he]
+          by_cases ho : q.orderBy.isEmpty
+          · simp only [ho, if_true] at h0 ⊢
+            exact C16_stream_slice g _ _ _ _ _ _ xs h0 (Or.inr hb)
+          · simp only [ho] at h0 ⊢
+            exact ordered _ h0
+      · simp only [hor, if_false] at h0 ⊢
+        split at h0
+        · cases h0
+        · rename_i he
+          simp only [he]
+          exact ordered _ h0
+
 /-- **Never a failure**: on the repaired code no search — any algorithm, any limit, offset, ordering, conditions —
 panics or over-allocates; the only non-value outcomes are the documented `NotFound` for a missing origin and
 (in the model) fuel exhaustion, which `C14_terminates` excludes for the graph searches. -/
